@@ -625,6 +625,13 @@ def register(M):
         if i.op == "adt" and i.a[0] in ("RangeFrom", "Range", "RangeTo", "RangeInclusive", "RangeFull"):
             if i.a[0] == "RangeFrom":
                 cond = tm.lt(ln, i.a[2])
+                if "str" in res and i.a[2].op == "num":
+                    # s[n..] on a path where s.starts_with(<literal of n bytes>) holds: cannot be out of range, and is
+                    # the text without that prefix
+                    for g in ev.pc:
+                        if g.op == "starts_with" and g.a[0] is v and g.a[1].op in ("char", "str") and isinstance(g.a[1].a[0], str) \
+                                and len(g.a[1].a[0].encode("utf-8")) == i.a[2].a[0]:
+                            return mk("strip_prefix_val", v, g.a[1])
                 kind = "str-range-index" if "str" in res else "range-index"
                 p = panic(ev, kind, cx, extra=cond)
                 if p is BOTTOM:
@@ -962,6 +969,46 @@ def register(M):
         l, _ = ev.reify(f, 2)
         return mk("fold", it, init, l)
 
+    @reg("std::iter::Iterator::try_fold")
+    def it_try_fold(ev, fr, prog, fty, args, cx):
+        """try_fold over an unrolled iterator with a Result-valued step: Ok(final accumulator), or the first Err."""
+        it = itv(ev, args[0])
+        init, f = args[1], args[2]
+        rt = prog.types[cx["ret_ty"]] if isinstance(cx, dict) and "ret_ty" in cx else None
+        if it.op != "eiter" or rt is None or not str(rt.get("path", "")).endswith("result::Result"):
+            return M.opaque_call(ev, fty, "std::iter::Iterator::try_fold", args, cx)
+        items = M.eiter_items(it)
+
+        def run(seq, assume_ok=False):
+            acc = init
+            errc = tm.FALSE
+            errv = tm.GARBAGE
+            for g, x in seq:
+                r = M.apply_gated(ev, tm.and_(g, tm.not_(errc)), f, [acc, x])
+                if r is BOTTOM:
+                    continue
+                ok = tm.TRUE if assume_ok else res_is_ok(r)
+                live = tm.and_(g, tm.not_(errc))
+                errv = tm.ite(tm.and_(live, tm.not_(ok)), res_err(r), errv)
+                acc = tm.ite(tm.and_(live, ok), res_ok(r), acc)
+                errc = tm.or_(errc, tm.and_(live, tm.not_(ok)))
+            return acc, errc, errv
+        if getattr(ev, "order_check", False) and not ev.discover and M.hashy(it) and len(items) >= 2:
+            # the accumulator where no step fails, forwards and backwards (which error is reported first is admitted)
+            ev.discover += 1
+            try:
+                racc, _rc, _rv = run(list(reversed(items)), True)
+                facc, _fc, _fv = run(items, True)
+            finally:
+                ev.discover -= 1
+            acc, errc, errv = run(items)
+            ev.__dict__.setdefault("order_loops", []).append(
+                {"loc": cx.get("loc") if isinstance(cx, dict) else None, "stack": tuple(ev.call_stack), "n": len(items),
+                 "names": {0: "try_fold"}, "cells": [(0, facc, racc)] if facc is not racc else []})
+        else:
+            acc, errc, errv = run(items)
+        return tm.ite(errc, tm.err(errv), tm.ok(acc))
+
     @reg("std::iter::Iterator::for_each")
     def it_for_each(ev, fr, prog, fty, args, cx):
         it = itv(ev, args[0])
@@ -1002,6 +1049,22 @@ def register(M):
     M.table["core::str::<impl str>::starts_with"] = s1("starts_with")
     M.table["core::str::<impl str>::ends_with"] = s1("ends_with")
     M.table["core::str::<impl str>::contains"] = s1("str_contains")
+
+    @reg("std::char::methods::<impl char>::len_utf8", "core::char::methods::<impl char>::len_utf8")
+    def char_len_utf8(ev, fr, prog, fty, args, cx):
+        c = deref_arg(ev, args[0])
+        if c.op in ("char", "str") and isinstance(c.a[0], str):
+            return tm.num(len(c.a[0].encode("utf-8")))
+        return mk("len_utf8", c)
+
+    @reg("core::str::<impl str>::split_once")
+    def split_once(ev, fr, prog, fty, args, cx):
+        """s.split_once(d) = Some((text before the first d, text after it)) when d occurs: spelled with the same
+        splitn(2, ..) terms the two-step idiom produces."""
+        st = deref_arg(ev, args[0])
+        d = deref_arg(ev, args[1])
+        parts = mk("collect", mk("splitn", tm.num(2), st, d))
+        return make_opt(mk("str_contains", st, d), tm.tup(mk("index", parts, tm.ZERO), mk("index", parts, tm.num(1))))
 
     @reg("core::str::<impl str>::splitn")
     def splitn(ev, fr, prog, fty, args, cx):
